@@ -176,11 +176,13 @@ func (self *visitorUserNode) OnNull() error {
 		self.inskip = false
 		return nil
 	}
-	// self.stk[self.sp].val = &visitorUserNull{}
-	if err := self.incrSP(); err != nil {
-		return err
+	// null stands for no value: a message field stays unset, but a list element, a map value or the root must be there
+	// NOTICE: nothing has been pushed for it, thus there is nothing to pop either
+	if self.globalFieldDesc != nil && self.stk[self.sp].typ == objStkType {
+		self.globalFieldDesc = nil
+		return nil
 	}
-	return self.onValueEnd()
+	return newError(meta.ErrDismatchType, "unexpected null", nil)
 }
 
 func (self *visitorUserNode) OnBool(v bool) error {
